@@ -18,7 +18,8 @@ RULE = ("seeded topologies with repeated molecule names in [molecules] (e.g. CH 
         "and the node attributes / molecule lists are compared with a selection semantics written from the statement "
         "(name and index in [a,b); residue name and id in [a,b)); ligands are additionally built end-to-end by "
         "gen_coords and must sit one step (minimum image) from their host residue and be handed back. non-trivial = "
-        "case in which >= 1 option selected >= 1 residue; distinct = hash(topology, build file / option strings)")
+        "case in which >= 1 option selected >= 1 residue; distinct = hash(topology, build file / option strings)"
+        ' Later: ligand host given by residue only (neither molecule name nor index).')
 ASSUMPTIONS = ["distance restraints are generated on linear molecules only (branched ones are rejected by the program)",
                "one rw_restriction per [ molecule ] block (the statement does not say how several combine)"]
 CASE_TIMEOUT = 240
